@@ -109,6 +109,8 @@ func runC26(c *Ctx) {
 		} else if userCall == nil {
 			r.Bad("C26.R1", FuncID(fn), "user-only-exit", p.Pos(fn.Pos()), "UNRESOLVED-ANCHOR: validateUserPassword call not found")
 		}
+	} else {
+		r.Bad("C26.R1", "pkg/pdfcpu.setupEncryptionKey", "anchor", "", "UNRESOLVED-ANCHOR: function not found")
 	}
 	// ---- R2: masks
 	type maskInfo struct{ lo, hi int64 }
